@@ -43,6 +43,7 @@ pub fn sep_text(cls: &str) -> &'static str {
         "bc2" => "/* x **/",
         "bc3" => "/***/",
         "bc4" => "/*/ x */",
+        "bc5" => "/* a/b *c/ */",
         "ppskip" => "\n#if NOPE\nstruct Hidden {}\n#endif\n",
         "ppdef" => "\n#define ZED\n",
         _ => " ",
